@@ -339,9 +339,10 @@ def c08_hist_compare(ir, mr):
 
 
 def retrying_compare(kind, oracle1):
-    """Real-clock kinds: otter's 1 s ticker goroutine can be starved on a loaded machine; its clock then lags by more
-    than the model assumes and an entry expires EARLY (always allowed by the property, but not what the model, run
-    with an ideal ticker, predicts). A mismatching case whose result passes the property oracle is therefore re-run
+    """Real-clock kinds: a live entry can be lost early for reasons outside C08 (the double release of a cacheEntry
+    described in docs/notes/C08.md obs. 5 hits unrelated keys of the same process; otter's ticker goroutine can be
+    starved on a loaded machine). A miss is always allowed by the property, but it is not what the model predicts.
+    A mismatching case whose result passes the property oracle is therefore re-run
     (implementation side only) up to twice and accepted when a re-run matches the model. A result that fails the
     property oracle is never re-run: the oracle is evaluated on the first result by bin/check."""
     def cmp(ir, mr):
@@ -636,7 +637,8 @@ PROPS["C08"] = dict(
     assumptions=["otter clock model (see trusted base); cachehist ops are scheduled >= 200 ms away from whole-second "
                  "distances to the stores they depend on, and a case whose ops ran > 150 ms late is re-run once, then "
                  "reported as a harness note, never as an alarm; a real-clock case that passes the property oracle but "
-                 "differs from the model (early expiry when otter's ticker goroutine is starved) is re-run up to twice",
+                 "differs from the model (an early miss: pool double release hitting an unrelated key, starved ticker) is "
+                 "re-run up to twice; the harness drains the process's sync.Pools before every real-clock case",
                  "fetch instant of the property = cacheEntry.storedTime (time.Now() inside cacheCtl.Store)"],
     trusted=C08_TRUST,
     level_note="C08 proof: TTL ageing, lifetime table (no overflow up to 2^32-1), never-cached and set-if-absent "
